@@ -361,18 +361,27 @@ def minimise(case: Case, cfg, kind):
     return case, cfg
 
 
+_MIN_CACHE: dict = {}
+
+
 def report(p, case, cfg, fails):
+    """one violation per failure kind; the signature comes from the delta-debugged minimal case.  Cases with the
+    same (kind, configuration, feature set) as one already minimised in this worker reuse its result."""
     done = set()
     for kind, msg in fails:
         if kind in done:
             continue
         done.add(kind)
-        mc, mcfg = minimise(case, cfg, kind)
-        mfails = [m for k, m in check_case(mc, mcfg)[0] if k == kind]
-        sig = "C33/%s/%s/%s" % (kind, cfg_name(mcfg), "+".join(features(mc)) or "plain")
+        ck = (kind, cfg, tuple(features(case)))
+        if ck not in _MIN_CACHE:
+            mc, mcfg = minimise(case, cfg, kind)
+            mfails = [m for k, m in check_case(mc, mcfg)[0] if k == kind]
+            sig = "C33/%s/%s/%s" % (kind, cfg_name(mcfg), "+".join(features(mc)) or "plain")
+            _MIN_CACHE[ck] = (sig, mc, mcfg, mfails[0] if mfails else msg)
+        sig, mc, mcfg, mmsg = _MIN_CACHE[ck]
         src = mc.source()
         p.violation(sig, {
-            "msg": "%s %r: %s" % (cfg_name(mcfg), src, mfails[0] if mfails else msg),
+            "msg": "%s %r: %s" % (cfg_name(mcfg), src, mmsg),
             "source": src, "config": cfg_name(mcfg), "found_with": {"source": case.source(), "config": cfg_name(cfg)},
             "script": "from checks import c33\nc33.replay_source(%r, %r, %r)\n" % (mc.key(), mcfg, None),
         })
